@@ -46,7 +46,7 @@ var guardTable = map[string]string{
 	"CountMinSketch.BlockMask": gPolicy,
 	"TimerWheel.clock": gImmutable, "TimerWheel.buckets": gImmutable, "TimerWheel.spans": gImmutable,
 	"TimerWheel.shift": gImmutable, "TimerWheel.wheel": gImmutable, "TimerWheel.nanos": gPolicy,
-	"Store.entryPool": gImmutable, "Store.writeChan": gImmutable, "Store.writeBuffer": gPolicy, "Store.hasher": gImmutable,
+	"Store.entryPool": gImmutable, "Store.writeChan": gImmutable, "Store.writeBuffer": gFree, "Store.hasher": gImmutable,
 	"Store.removalListener": gImmutable, "Store.removalCallback": gImmutable, "Store.kvBuilder": gImmutable,
 	"Store.policy": gImmutable, "Store.timerwheel": gImmutable, "Store.stripedBuffer": gImmutable, "Store.mask": gImmutable,
 	"Store.cost": gImmutable, "Store.shards": gImmutable, "Store.cap": gImmutable, "Store.shardCount": gImmutable,
